@@ -375,7 +375,7 @@ def to_vector(c):
         return c
     if hasattr(c, vector):
         # already a labelled array: only make sure it has unit length
-        norm = np.sqrt((c**2).sum(vector))
+        norm = np.sqrt((np.abs(c)**2).sum(vector))
         if np.allclose(norm, 1, rtol=1e-14, atol=0):
             return c
         return c / norm
@@ -388,8 +388,8 @@ def to_vector(c):
     c = np.array(c)
     if c.shape == (2,):
         c = np.append(c, 0)
-    # normalize
-    c = c/np.sqrt(np.sum(c**2))
+    # normalize (complex components: circular or elliptical polarization)
+    c = c/np.sqrt(np.sum(np.abs(c)**2))
 
     return xr.DataArray(c, coords={vector: ['x', 'y', 'z']}, dims=vector)
 
